@@ -430,7 +430,7 @@ def run(ctx):
 
 
 # the model as the code is now; set to "pop", "nullref" or "pop,nullref" when fixes/C07-*.diff are committed to /repo
-FIXES_APPLIED = os.environ.get("C07_FIXES", "")
+FIXES_APPLIED = os.environ.get("C07_FIXES", "pop,nullref")
 REPAIR_VARIANTS = ["pop", "nullref", "pop,nullref"]
 
 
